@@ -259,6 +259,32 @@ func c15Pool(seed int64) []c15Op {
 			return c15RunV1(st, "ok-loop", &drive.RunState{Budget: 5000, FireAtPoll: k})
 		}})
 	}
+	// loads of OTHER workspaces that share file names and texts with the sets
+	// the run operations keep loaded: same main.p, another lib.p / reader2.p;
+	// one that fails to link. Nothing of them is kept; they may not change
+	// what an earlier loaded set does.
+	for j, other := range []map[string]string{
+		{"main.p": c15Srcs["use-ok"], "lib.p": "add_key(from_lib, \"OTHER LIB\")\nadd_key(extra, 1)\n", "badrun.p": c15Srcs["badrun"], "reader2.p": c15Srcs["reader2"]},
+		{"main.p": c15Srcs["reader-use"], "lib.p": c15Srcs["lib"], "badrun.p": c15Srcs["badrun"], "reader2.p": "p(\"other reader\")\nadd_key(seen_by_other, 1)\n"},
+		{"main.p": c15Srcs["use-ok"], "lib.p": "use(\"main.p\")\n", "badrun.p": c15Srcs["badrun"], "reader2.p": c15Srcs["reader2"]},
+		{"main.p": c15Srcs["use-fail"], "lib.p": c15Srcs["lib"], "badrun.p": "add_key(in_bad, 2)\n", "reader2.p": c15Srcs["reader2"]},
+	} {
+		other, j := other, j
+		ops = append(ops, c15Op{fmt.Sprintf("load-other-workspace:%d", j), func(st *c15State) string {
+			ok, errs := engine.ParseScript(other, c15Call, c15Check)
+			var names []string
+			for n := range ok {
+				names = append(names, n)
+			}
+			sort.Strings(names)
+			var en []string
+			for n, e := range errs {
+				en = append(en, n+": "+errText(e))
+			}
+			sort.Strings(en)
+			return fmt.Sprintf("accepted=%v rejected=%v", names, en)
+		}})
+	}
 	for i, src := range c15Invalid {
 		src := src
 		ops = append(ops, c15Op{fmt.Sprintf("parse-invalid:%d", i), func(st *c15State) string {
